@@ -674,7 +674,10 @@ fn answer_inner(line: &str) -> String {
                     Ok(l) => {
                         let raw: Option<u64> = (&l).into();
                         match raw {
-                            Some(n) => format!("ok {}", n),
+                            Some(n) => {
+                                let back = unsafe { Language::from_raw_unchecked(n) };
+                                format!("ok {} {}", n, b(back == l))
+                            }
                             None => "ok none".to_string(),
                         }
                     }
@@ -702,7 +705,8 @@ fn answer_inner(line: &str) -> String {
                             Ok(s) => format!("{}{}", b(l == *s), b(l == s)),
                             Err(_) => "nn".to_string(),
                         };
-                        format!("ok {} {}", n, eqs)
+                        let back = unsafe { Variant::from_raw_unchecked(n) };
+                        format!("ok {} {} {}", n, eqs, b(back == l))
                     }
                     Err(_) => "err".to_string(),
                 },
